@@ -14,6 +14,8 @@ import (
 	cmtproto "github.com/cometbft/cometbft/proto/tendermint/types"
 	sdk "github.com/cosmos/cosmos-sdk/types"
 	authtypes "github.com/cosmos/cosmos-sdk/x/auth/types"
+	banktypes "github.com/cosmos/cosmos-sdk/x/bank/types"
+	sdkmath "cosmossdk.io/math"
 
 	elysapp "github.com/elys-network/elys/app"
 )
@@ -43,11 +45,13 @@ type Trace struct {
 // Executed block (what monitors see)
 
 type ExecTx struct {
-	Index int
-	Spec  *TxSpec
-	Bytes []byte
-	Res   *abci.ExecTxResult
-	Acc   *Account
+	Index  int
+	Spec   *TxSpec
+	Bytes  []byte
+	Res    *abci.ExecTxResult
+	Acc    *Account
+	AccNum uint64
+	Seq    uint64
 }
 
 func (t *ExecTx) OK() bool { return t.Res != nil && t.Res.Code == 0 }
@@ -89,6 +93,7 @@ type Sim struct {
 	W      *World
 	N0     *Node
 	N1     *Node // crash/restart replica (nil if disabled)
+	NS     *Node // differential shadow replica: failed transactions replaced by fee-only stand-ins (nil if disabled)
 	Height int64
 	Now    time.Time
 
@@ -195,6 +200,14 @@ func NewSim(seed uint64, cfg SwarmConfig, replay *Trace) (*Sim, error) {
 			return nil, fmt.Errorf("initchain n1: %w", err)
 		}
 	}
+	if cfg.Shadow {
+		if s.NS, err = NewNode("shadow", NewSimDB(), nil); err != nil {
+			return nil, err
+		}
+		if err = s.NS.InitChain(s.W); err != nil {
+			return nil, fmt.Errorf("initchain shadow: %w", err)
+		}
+	}
 	s.Now = cfg.Genesis.GenesisTime
 	// block 1 is an empty boot block (commits the genesis state); traces start at height 2
 	s.Now = s.Now.Add(5 * time.Second)
@@ -206,6 +219,11 @@ func NewSim(seed uint64, cfg SwarmConfig, replay *Trace) (*Sim, error) {
 	if s.N1 != nil {
 		if r := s.N1.Apply(s.W, b1); r.Err != nil || r.Panic != "" {
 			return nil, fmt.Errorf("boot block failed on n1: %v %s", r.Err, r.Panic)
+		}
+	}
+	if s.NS != nil {
+		if r := s.NS.Apply(s.W, b1); r.Err != nil || r.Panic != "" {
+			return nil, fmt.Errorf("boot block failed on shadow: %v %s", r.Err, r.Panic)
 		}
 	}
 	s.Ledger = NewLedger(s)
@@ -407,7 +425,7 @@ func (s *Sim) execBlock(spec *BlockSpec) {
 			return
 		}
 		blk.Txs = append(blk.Txs, bz)
-		eb.Txs = append(eb.Txs, &ExecTx{Index: i, Spec: ts, Bytes: bz, Acc: acc})
+		eb.Txs = append(eb.Txs, &ExecTx{Index: i, Spec: ts, Bytes: bz, Acc: acc, AccNum: accI.GetAccountNumber(), Seq: seq})
 	}
 	s.cur = eb
 	// monitors that need the state the begin blocker will see: committed state + new header
@@ -463,6 +481,9 @@ func (s *Sim) execBlock(spec *BlockSpec) {
 	// replica
 	if s.N1 != nil {
 		s.applyReplica(spec, blk, eb)
+	}
+	if s.NS != nil {
+		s.applyShadow(blk, eb)
 	}
 	s.Ledger.Ingest(s, eb)
 	for _, m := range s.Monitors {
@@ -716,4 +737,85 @@ func (s *Sim) moduleName(addr string) string {
 		}
 	}
 	return s.modNames[addr]
+}
+
+
+// applyShadow feeds the differential shadow replica: every transaction that
+// failed on the reference node is replaced by a stand-in from the same signer,
+// with the same sequence, fee, gas limit and memo, whose only message fails
+// trivially in the handler (a bank send the account cannot afford); transactions
+// that were refused before/inside the ante handler are dropped. A refused
+// transaction must leave nothing but its ante effects, so the app hashes of the
+// reference and the shadow must be identical after every block.
+func (s *Sim) applyShadow(blk *Block, eb *ExecBlock) {
+	sb := &Block{Height: blk.Height, Time: blk.Time}
+	replaced, dropped := 0, 0
+	var failed []*ExecTx
+	for _, t := range eb.Txs {
+		if t.OK() {
+			sb.Txs = append(sb.Txs, t.Bytes)
+			continue
+		}
+		failed = append(failed, t)
+		antePassed := false
+		for _, ev := range t.Res.Events {
+			if ev.Type == "tx" {
+				antePassed = true
+			}
+		}
+		if !antePassed {
+			dropped++
+			continue
+		}
+		spec := &TxSpec{Signer: t.Spec.Signer, Gas: t.Spec.Gas, Fee: t.Spec.Fee, Memo: t.Spec.Memo,
+			Msgs: []sdk.Msg{&banktypes.MsgSend{FromAddress: t.Spec.Signer, ToAddress: t.Spec.Signer, Amount: sdk.NewCoins(sdk.NewCoin(DenomUSDC, sdkmath.NewIntWithDecimal(1, 30)))}}}
+		bz, err := signTx(s.NS.App.TxConfig(), t.Acc, t.AccNum, t.Seq, spec)
+		if err != nil {
+			s.Harness("shadow stand-in sign: %v", err)
+			return
+		}
+		sb.Txs = append(sb.Txs, bz)
+		replaced++
+	}
+	res := s.NS.Finalize(s.W, sb)
+	s.NS.DB.ReleaseAll()
+	if res.Err == nil && res.Panic == "" {
+		s.NS.Commit(&res)
+	}
+	if res.Err != nil || res.Panic != "" {
+		s.Harness("shadow replica failed block %d: %v %s", blk.Height, res.Err, truncate(res.Panic, 500))
+		s.NS = nil
+		return
+	}
+	s.Stats.Inc("shadow_blocks_compared", 1)
+	s.Stats.Inc("shadow_failed_tx_replaced_by_stand_in", float64(replaced))
+	s.Stats.Inc("shadow_failed_tx_dropped_ante", float64(dropped))
+	if hex.EncodeToString(res.AppHash) == hex.EncodeToString(eb.Res.AppHash) {
+		return
+	}
+	// which failed transaction is to blame: those of this block (named in the violation)
+	var names []string
+	attack := false
+	for _, t := range failed {
+		names = append(names, fmt.Sprintf("#%d %s [%s] code=%d %s", t.Index, txStep(t), t.Spec.Tag, t.Res.Code, truncate(firstLine(t.Res.Log), 120)))
+		if strings.HasPrefix(t.Spec.Tag, "attack/") {
+			attack = true
+		}
+	}
+	prop, sub := "C18", "failed_tx_left_effects"
+	if attack {
+		prop, sub = "C17", "refused_message_changed_state"
+	}
+	culprit := "?"
+	if len(failed) == 1 {
+		culprit = txStep(failed[0])
+	} else if len(failed) > 1 {
+		culprit = "one of " + fmt.Sprint(len(failed)) + " failed txs"
+	}
+	s.Violate(prop, sub, culprit, "height %d: the state differs from a replica in which the refused transactions were replaced by fee-only stand-ins (app hash %X vs %X); failed transactions of this block:\n    %s", blk.Height, eb.Res.AppHash, res.AppHash, strings.Join(names, "\n    "))
+	if attack && prop == "C17" {
+		// the same divergence is also a C18 isolation violation
+		s.Violate("C18", "failed_tx_left_effects", culprit, "height %d: see C17/refused_message_changed_state", blk.Height)
+	}
+	s.NS = nil // diverged for good
 }
